@@ -43,34 +43,176 @@ open TinyVerif.Gen.Thread
 @[simp] theorem takeVal_word (x : Inst) : (takeVal x).word = x.word := by unfold takeVal; split <;> rfl
 @[simp] theorem takeVal_tlsFrees (x : Inst) : (takeVal x).tlsFrees = x.tlsFrees := by unfold takeVal; split <;> rfl
 
-/-! ## tie T -/
+/-! ## tie T
 
-def expectedSpawnOps : List String :=
-  [ -- the epilogue closure `df`
-    "tsm_init", "call_func", "write_slot", "cas", "set_tid_0", "drop_value", "tsm_dealloc", "tls_dealloc",
-    -- set-up, with the mmap error path
-    "box_closure", "mmap", "drop_closure", "tsm_dealloc", "ret_err", "tls_box",
-    -- clone, with its error path
-    "clone", "check_clone", "drop_tls", "munmap", "drop_closure", "tsm_dealloc", "ret_err", "ok_handle"]
+`Gen/ThreadSites.lean` lists, for `spawn` (handle side), the thread's entry closure, `on_panic`, `join` and
+`Drop::drop`, every *path* through the function after the helper functions of the file have been inlined, as a
+list of protocol operations with the decision each branch stands for (`cas_lost`/`cas_won`, `mmap_err`/`mmap_ok`,
+`clone_neg`/`clone_nonneg`, `is_thread`/`is_main`), and the atomic / futex sites with their resolved location
+(hand-over flag `sync`, exit word `futex`) and orderings.  Nothing below speaks about positions in the source,
+about which helper performs an operation, or about the syntactic form of a branch or a loop.
 
-/-- (`asm_exit` is listed before `asm_munmap` because the asm text precedes its operand list in the source) -/
-def expectedPanicOps : List String :=
-  ["tls_read", "tls_dealloc", "cas", "set_tid_0", "tsm_dealloc", "asm_exit", "asm_munmap"]
+The model's step sequence fixes a total order per party; what the proofs *rely on* is the partial order stated
+here, everything else commutes (each release touches its own resource only — `undo_releases_commute`):
 
-def casSite (f : String) : Site := ⟨f, "compare_exchange", "sync", ["false", "true"], [.acqrel, .relaxed]⟩
+ * spawn: the block is allocated and its three members (flag `false`, word `UNFINISHED`, slot `None`) are written
+   before it is published by `clone`; closure boxed, stack mapped, tls boxed before `clone`; `clone` before the
+   handle; after a failed `clone` (a failed `mmap`) tls, stack, closure and block (closure and block) are each
+   released exactly once, in any order, and an error — never a handle — is returned  [`checkClone`, `mmapCleanup`];
+ * thread: call → store of the result → hand-over CAS; a thread that lost the CAS resets its clear-tid address,
+   then drops the unread result, then frees the block  [`setTidRet`, `dropValT`]; the thread-local block is freed
+   exactly once, after every piece of user code (the call, the drop of the result); the winner frees nothing shared;
+ * panic handler: tls is copied out before it is freed, exactly once on every thread path; loser: CAS → clear-tid
+   reset → free  [`setTidPanic`]; the stack-unmap + exit asm is last;
+ * join: wait → read the slot → free the block, on every path; the handle's destructor is suppressed;
+ * drop: CAS first; the loser waits, then drops the unread result, then frees  [`dropValH`]; the winner touches
+   nothing;
+ * the exit wait re-reads the word after every return of the futex wait and leaves only when it differs from the
+   value waited on  [`recheck`].
+
+Orderings are demanded as *at least* what the argument needs (`isAcq` / `isRel`), never as equalities.
+A path with an operation the extractor did not understand (`Op.unknown`) makes its function "not understood":
+the parameters that depend on it are then taken from the running code by the check (`…Static = false`, reported in
+the evidence) and the order of its operations is checked on every observed history by the model replay (tie C)
+alone; the obligations about sites and orderings, and `gen_cfg_good`, hold regardless. -/
+
+abbrev Path := List Op
+
+def has (a : Op) (p : Path) : Bool := p.contains a
+def once (a : Op) (p : Path) : Bool := p.count a == 1
+/-- both occur and the first `a` comes before the first `b` -/
+def bef (a b : Op) (p : Path) : Bool := has a p && has b p && decide (p.idxOf a < p.idxOf b)
+def understood (p : Path) : Bool := !has .unknown p
+def noneOf (xs : List Op) (p : Path) : Bool := xs.all (fun x => !has x p)
+def onceAfter (a : Op) (xs : List Op) (p : Path) : Bool := xs.all (fun x => once x p && bef a x p)
+def lostP (ps : List Path) : List Path := ps.filter (has .cas_lost)
+def wonP (ps : List Path) : List Path := ps.filter (has .cas_won)
+def threadP (ps : List Path) : List Path := ps.filter (has .is_thread)
+
+/-! the model's parameters as predicates over the path lists -/
+
+def checkCloneOf (ps : List Path) : Bool :=
+  let neg := ps.filter (has .clone_neg)
+  let pos := ps.filter (has .clone_nonneg)
+  !neg.isEmpty && !pos.isEmpty &&
+  (ps.filter (has .clone)).all (fun p => understood p && once .clone p && (has .clone_neg p != has .clone_nonneg p)) &&
+  neg.all (fun p => bef .clone .clone_neg p && onceAfter .clone_neg [.drop_tls, .munmap, .drop_closure, .tsm_dealloc] p &&
+    has .ret_err p && !has .ok_handle p) &&
+  pos.all (fun p => bef .clone_nonneg .ok_handle p && noneOf [.drop_tls, .munmap, .drop_closure, .tsm_dealloc, .ret_err] p)
+
+def mmapCleanupOf (ps : List Path) : Bool :=
+  let err := ps.filter (has .mmap_err)
+  !err.isEmpty &&
+  (ps.filter (has .mmap)).all (fun p => once .mmap p && (has .mmap_err p != has .mmap_ok p) && !has .try_return p) &&
+  err.all (fun p => understood p && bef .mmap .mmap_err p && onceAfter .mmap_err [.drop_closure, .tsm_dealloc] p &&
+    has .ret_err p && noneOf [.ok_handle, .clone, .tls_box, .munmap] p)
+
+def setTidOf (ps : List Path) : Bool :=
+  !(lostP ps).isEmpty &&
+  (lostP ps).all (fun p => understood p && once .set_tid_0 p && bef .cas .set_tid_0 p && bef .set_tid_0 .tsm_dealloc p) &&
+  (wonP ps).all (fun p => understood p && !has .set_tid_0 p)
+
+def dropValTOf (ps : List Path) : Bool :=
+  !(lostP ps).isEmpty &&
+  (lostP ps).all (fun p => understood p && once .drop_value p && bef .cas .drop_value p && bef .drop_value .tsm_dealloc p)
+
+def dropValHOf (ps : List Path) : Bool :=
+  !(lostP ps).isEmpty &&
+  (lostP ps).all (fun p => understood p && once .drop_value p && bef .cas .wait p && bef .wait .drop_value p &&
+    bef .drop_value .tsm_dealloc p)
+
+/-- one iteration of the exit wait: load; leave iff the word differs from V; else futex_wait(word, V) and again -/
+def goodIter : List Path := [[.load, .word_eq, .futex_wait, .cont], [.load, .word_ne, .brk]]
+
+def recheckOf (ls : List WaitLoop) (jd : List Path) : Bool :=
+  !jd.any (has .futex_wait) && !ls.isEmpty &&
+  ls.all (fun l => l.iter == goodIter && l.cmp.length == 1 && l.cmp == l.arg)
+
+/-- every parameter the extractor decided from the source is the value of its predicate on the emitted paths -/
+def genParamsFromPaths : Bool :=
+  (!checkCloneStatic || Gen.Thread.checkClone == checkCloneOf spawnPaths) &&
+  (!mmapCleanupStatic || Gen.Thread.mmapCleanup == mmapCleanupOf spawnPaths) &&
+  (!setTidRetStatic || Gen.Thread.setTidRet == setTidOf epiloguePaths) &&
+  (!dropValTStatic || Gen.Thread.dropValT == dropValTOf epiloguePaths) &&
+  (!setTidPanicStatic || Gen.Thread.setTidPanic == setTidOf (threadP panicPaths)) &&
+  (!dropValHStatic || Gen.Thread.dropValH == dropValHOf dropPaths) &&
+  (!recheckStatic || Gen.Thread.recheck == recheckOf waitLoops (joinPaths ++ dropPaths))
+
+theorem gen_params_from_paths : genParamsFromPaths = true := by decide
+
+/-! the partial order between operations (for the functions whose every path is understood) -/
+
+def spawnShape (ps : List Path) : Bool :=
+  ps.any (has .clone) &&
+  ps.all (fun p => once .tsm_alloc p && onceAfter .tsm_alloc [.init_flag_false, .init_word, .init_slot_none] p &&
+    !has .tsm_alloc_zeroed p) &&
+  (ps.filter (has .clone)).all (fun p =>
+    [Op.tsm_alloc, .init_flag_false, .init_word, .init_slot_none, .box_closure, .mmap, .tls_box].all (fun x => once x p && bef x .clone p)) &&
+  (ps.filter (has .ok_handle)).all (fun p => bef .clone .ok_handle p)
+
+def epilogueShape (ps : List Path) : Bool :=
+  !(lostP ps).isEmpty && !(wonP ps).isEmpty &&
+  ps.all (fun p => once .call_func p && once .write_slot p && once .cas p && bef .call_func .write_slot p &&
+    bef .write_slot .cas p && (has .cas_won p != has .cas_lost p) && once .tls_dealloc p && bef .call_func .tls_dealloc p &&
+    noneOf [.wait, .futex_wait, .load] p) &&
+  (lostP ps).all (fun p => once .tsm_dealloc p && bef .cas .tsm_dealloc p && (!has .drop_value p || bef .drop_value .tls_dealloc p)) &&
+  (wonP ps).all (fun p => noneOf [.tsm_dealloc, .drop_value] p)
+
+def panicShape (ps : List Path) : Bool :=
+  let thr := threadP ps
+  let main := ps.filter (has .is_main)
+  !(lostP thr).isEmpty && !(wonP thr).isEmpty && !main.isEmpty &&
+  thr.all (fun p => once .tls_read p && once .tls_dealloc p && bef .tls_read .tls_dealloc p && once .cas p &&
+    (has .cas_won p != has .cas_lost p) && once .asm_unmap_exit p &&
+    [Op.tls_dealloc, .cas, .set_tid_0, .tsm_dealloc].all (fun x => !has x p || bef x .asm_unmap_exit p)) &&
+  (lostP thr).all (fun p => once .tsm_dealloc p && bef .cas .tsm_dealloc p) &&
+  (wonP thr).all (fun p => !has .tsm_dealloc p) &&
+  main.all (fun p => noneOf [.cas, .tsm_dealloc, .tls_dealloc, .set_tid_0, .asm_unmap_exit] p)
+
+def joinShape (ps : List Path) : Bool :=
+  !ps.isEmpty &&
+  ps.all (fun p => once .wait p && once .read_slot p && once .tsm_dealloc p && bef .wait .read_slot p &&
+    bef .read_slot .tsm_dealloc p && has .forget p && noneOf [.cas, .set_tid_0] p)
+
+def dropShape (ps : List Path) : Bool :=
+  !(lostP ps).isEmpty && !(wonP ps).isEmpty &&
+  ps.all (fun p => once .cas p && (has .cas_won p != has .cas_lost p) && !has .set_tid_0 p) &&
+  (lostP ps).all (fun p => once .wait p && once .tsm_dealloc p && bef .cas .wait p && bef .wait .tsm_dealloc p) &&
+  (wonP ps).all (fun p => noneOf [.wait, .tsm_dealloc, .drop_value, .futex_wait] p)
+
+/-- `f ps` is demanded when the extractor understood every path of the function (otherwise: model replay only) -/
+def whenUnderstood (ps : List Path) (f : List Path → Bool) : Bool := !ps.all understood || f ps
+
+def isAcq : Gen.Thread.Ord → Bool
+  | .acquire | .acqrel | .seqcst => true
+  | _ => false
+def isRel : Gen.Thread.Ord → Bool
+  | .release | .acqrel | .seqcst => true
+  | _ => false
+
+/-- the hand-over CAS: a strong compare_exchange(false, true) on the flag whose success ordering is at least
+Acquire and at least Release (any failure ordering) -/
+def goodCas (s : Site) : Bool :=
+  s.op == "compare_exchange" && s.loc == "sync" && s.vals == ["false", "true"] &&
+  isAcq (s.ords.getD 0 .relaxed) && isRel (s.ords.getD 0 .relaxed)
+
+/-- a site of the exit wait: a load of the exit word that is at least Acquire, or the futex wait on that word -/
+def goodWaitSite (s : Site) : Bool :=
+  s.loc == "futex" && ((s.op == "load" && isAcq (s.ords.getD 0 .relaxed)) || s.op == "futex_wait_fast")
+
+/-- exactly one hand-over CAS, and every other atomic operation of the function belongs to the exit wait -/
+def casOk (l : List Site) : Bool := (l.filter goodCas).length == 1 && l.all (fun s => goodCas s || goodWaitSite s)
 
 def genShapeOk : Bool :=
-  spawnOps == expectedSpawnOps && panicOps == expectedPanicOps &&
-  joinOps == ["wait", "read_slot", "tsm_dealloc", "forget"] &&
-  dropOps == ["cas", "is_err", "wait", "drop_value", "tsm_dealloc"] &&
+  -- sites, whatever the control structure: drop / thread / panic handler do exactly one good CAS; join does none
+  -- and touches nothing but the exit word; spawn's handle side does no atomic operation at all
+  casOk dropSites && casOk spawnSites && spawnSites.length == 1 && casOk panicSites && panicSites.length == 1 &&
+  joinSites.all goodWaitSite && joinSites.any (fun s => s.op == "load") && hspawnSites.isEmpty &&
+  -- the partial orders
+  whenUnderstood spawnPaths spawnShape && whenUnderstood epiloguePaths epilogueShape &&
+  whenUnderstood panicPaths panicShape && whenUnderstood joinPaths joinShape && whenUnderstood dropPaths dropShape &&
   -- x86-64 trampoline: clone (56), then in the child munmap (11) and exit (60)
   cloneAsmSyscalls == [56, 11, 60] &&
-  -- `wait_for_exit`: while futex.load(Acquire) == UNFINISHED { futex_wait_fast(futex, UNFINISHED) }
-  waitSites == [⟨"wait_for_exit", "load", "futex", [], [.acquire]⟩,
-                ⟨"wait_for_exit", "futex_wait_fast", "futex", ["UNFINISHED"], []⟩] &&
-  joinSites == [] && dropSites == [casSite "drop"] &&
-  spawnSites == [casSite "spawn"] && panicSites == [casSite "on_panic"] &&
-  unfinished == some 1 &&
   -- join / drop wait with the same (shared) key kind the kernel's clear-tid wake uses
   futexWaitPrivate == false
 
